@@ -67,14 +67,18 @@ Record JL (clock : Z) (ws : list worker) (cqi : list Z) (d : sdata) (h : option 
 (** * the two queues *)
 Record JQ (tq cq : sys) : Prop := { jq_t : Q1 tq; jq_c : Q1 cq }.
 
+(** no worker was created in the future *)
+Definition CR (clock : Z) (ws : list worker) : Prop := forall w k, nth_error ws w = Some k -> k_create k <= clock.
+
 Section J.
 Variable mx : Z.
+Variable kp : Z.
 
 (** * the pool record, the clock, the configuration *)
 Record JP (x : pw) (tclock : Z) : Prop := {
   jp_pools : length (pw_pools x) = 1%nat;
   jp_min : p_min (get_pool x 0) <= 0;
-  jp_keep : p_keep (get_pool x 0) <= 0;
+  jp_keep : p_keep (get_pool x 0) = kp /\ 0 <= pw_clock x /\ CR (pw_clock x) (pw_workers x) /\ 0 <= p_popfail (get_pool x 0);
   jp_max : p_max (get_pool x 0) = mx;
   jp_mx : 1 <= mx;
   jp_cur : pw_cur x = 0%nat;
@@ -117,7 +121,7 @@ Record JT (ws : list worker) (tqi : list Z) (tb : list (list instr)) (tk : list 
            exists m, pmode (k_st k) = Some m /\
                      match k_task k with
                      | Some (_, rest) => body_from m rest = true
-                     | None => m = MRun /\ k_st k = Ready
+                     | None => m = MRun /\ (k_st k = Ready \/ k_st k = Suspend 0 0)
                      end;
   jt_tb : forall i, (i < length tb)%nat -> tt_accepted (tkn tk i) = true -> tt_started (tkn tk i) <> 0%nat ->
            tt_fin (tkn tk i) = None -> tt_cancel1 (tkn tk i) = false ->
